@@ -42,6 +42,7 @@ type workerStats struct {
 	PerScenario map[string]int64
 	MaxDepth    int
 	SkipReasons map[string]int64
+	perSig      map[string]int
 }
 
 type foundViolation struct {
@@ -58,6 +59,20 @@ type sample struct {
 	Choices  string   `json:"choices"`
 	Notes    []string `json:"notes,omitempty"`
 	Verdict  string   `json:"verdict"`
+}
+
+// keep caps the stored violating leaves per signature set (3 each, 5000 overall) so that a hot known
+// defect can never crowd out a different signature.
+func (st *workerStats) keep(v []Violation) bool {
+	key := ""
+	for _, x := range v {
+		key += x.Sig + "|"
+	}
+	if st.perSig == nil {
+		st.perSig = map[string]int{}
+	}
+	st.perSig[key]++
+	return st.perSig[key] <= 3 && len(st.Violations) < 5000
 }
 
 func newStats() *workerStats {
@@ -192,7 +207,7 @@ func (e *explorer) account(sc *Scenario, c *Chooser, res leafResult) {
 		}
 		if !same {
 			st.Nondet = append(st.Nondet, sc.Name+" "+res.Desc)
-		} else if len(st.Violations) < 200 {
+		} else if st.keep(res.Viol) {
 			st.Violations = append(st.Violations, foundViolation{Scenario: sc.Name, Choices: res.Choices,
 				Labels: res.Labels, Desc: res.Desc, Viol: res.Viol, Notes: res.Notes})
 		}
